@@ -56,7 +56,7 @@ func main() {
 		opt.Tier = "quick"
 	}
 	if opt.Timeout == 0 {
-		opt.Timeout = 45
+		opt.Timeout = 60
 		if opt.Tier == "thorough" {
 			opt.Timeout = 180
 		}
